@@ -17,7 +17,7 @@ static const u64 LM = (VW == 32) ? 0xFFFFFFFFFFFFFFFFULL : ((1ULL << ((2 * VW) %
 struct Regs
 {
     u64 rax = 0, rbx = 0, rcx = 0, rdx = 0, rsi = 0, rdi = 0, r8 = 0, r9 = 0, r10 = 0, r11 = 0, r12 = 0, r13 = 0, r14 = 0, r15 = 0;
-    bool cf = false;
+    bool cf = false, zf = false;
 };
 #ifdef SIMW_SIG
 extern thread_local u64 asig;
@@ -35,12 +35,41 @@ static inline void add(Regs &R, u64 &dst, u64 src, bool with_carry)
     u128 s = (u128)(dst & LM) + (src & LM) + ((with_carry && R.cf) ? 1 : 0);
     R.cf = (VW == 32) ? (s >> 64) != 0 : ((s >> (2 * VW)) & 1) != 0;
     dst = (u64)s & LM;
+    R.zf = dst == 0;
 }
 static inline void sub(Regs &R, u64 &dst, u64 src)
 {
     u64 a = dst & LM, b = src & LM;
     R.cf = a < b;
     dst = (a - b) & LM;
+    R.zf = dst == 0;
+}
+static inline void sbb(Regs &R, u64 &dst, u64 src)
+{
+    u128 a = dst & LM, b = (u128)(src & LM) + (R.cf ? 1 : 0);
+    R.cf = a < b;
+    dst = (u64)(a - b) & LM;
+    R.zf = dst == 0;
+}
+static inline void cmp(Regs &R, u64 dst, u64 src) { u64 a = dst & LM, b = src & LM; R.cf = a < b; R.zf = a == b; }
+static inline void test(Regs &R, u64 dst, u64 src) { R.cf = false; R.zf = ((dst & src) & LM) == 0; }
+static inline void logic(Regs &R, u64 &dst, u64 src, int which) { dst = (which == 0 ? (dst & src) : (dst | src)) & LM; R.cf = false; R.zf = dst == 0; }
+static inline void neg_(Regs &R, u64 &dst) { u64 a = dst & LM; R.cf = a != 0; dst = (0 - a) & LM; R.zf = dst == 0; }
+static inline void not_(Regs &, u64 &dst) { dst = (~dst) & LM; }
+static inline void inc_(Regs &R, u64 &dst) { dst = (dst + 1) & LM; R.zf = dst == 0; }
+static inline void dec_(Regs &R, u64 &dst) { dst = (dst - 1) & LM; R.zf = dst == 0; }
+static inline void shift(Regs &R, u64 &dst, unsigned count, int right)
+{
+    // counts written for 64-bit registers: 32q + r -> wq + r
+    unsigned c = count;
+    if (VW != 32) { if (c >= 48) c = 2 * VW - (64 - c); else if (c >= 16) c = (unsigned)((int)VW + ((int)c - 32)); }
+    u64 x = dst & LM;
+    if (c == 0) return;
+    if (c >= 2 * VW) { R.cf = false; dst = 0; R.zf = true; return; }
+    if (right) { R.cf = (x >> (c - 1)) & 1; x >>= c; }
+    else { R.cf = (x >> (2 * VW - c)) & 1; x = (x << c) & LM; }
+    dst = x;
+    R.zf = x == 0;
 }
 static inline void mul(Regs &R, u64 src)
 {
